@@ -24,7 +24,7 @@ ZND = 255
 def build(steps, shape, dtype, shuffle_seed=None):
     """rasters from runs: steps[t] = [[zone, value|None(NaN), count], ...] (same zone layout for all t)"""
     total = shape[0] * shape[1]
-    zones = np.empty(total, dtype="int32")
+    zones = np.empty(total, dtype=["int32", "uint8", "int16", "int64"][total % 4])     # zone rasters come in several integer types
     pix = np.empty((len(steps), total), dtype=dtype)
     pos = 0
     for (z, _v, cnt) in steps[0]:
@@ -63,7 +63,8 @@ def execute(c):
             # two results with the same name over DIFFERENT zone rasters evaluated in one graph: each must be its own
             import dask
 
-            zb = xr.DataArray(np.where(zones == ZND, ZND, (zones + 1) % max(c["nz"], 1)).astype(zones.dtype), dims=("y", "x"), attrs={"nodata": ZND})
+            z64 = zones.astype("int64")
+            zb = xr.DataArray(np.where(z64 == ZND, ZND, (z64 + 1) % max(c["nz"], 1)).astype(zones.dtype if c["nz"] <= 200 else "int64"), dims=("y", "x"), attrs={"nodata": ZND})
             dt_ = "float32" if c["bits"] == 24 else "float64"
             ra = da.hdc.zonal.mean(zn, list(range(c["nz"])), dtype=dt_, name="zmean")
             rb = da.hdc.zonal.mean(zb, list(range(c["nz"])), dtype=dt_, name="zmean")
